@@ -6,7 +6,7 @@ import ast
 
 from ..cfg import cfg_of
 from ..model import AnalysisError, call_name, calls_in, dotted, norm, walk_no_nested
-from .. import callgraph, rules
+from .. import callgraph, inline, rules
 from .. import conds as cnd
 from . import c05
 from ._dispatch import check_dispatcher
@@ -114,7 +114,7 @@ def check_counter(ctx):
 
 def _request_facts(ctx, f):
     """Skeleton of one request function; returns dict of facts or raises AnalysisError for unknown shapes."""
-    fn = f.node
+    fn = inline.expanded(ctx, f, keep={"send_message", "get_next_system_counter", "_get_queue_for_system", "_remove_queue"})  # a shared tail moved into a private helper is still this request
     q = f.qualname
     cfg = cfg_of(fn)
     facts = {}
@@ -125,7 +125,7 @@ def _request_facts(ctx, f):
     rem = [n for n in cfg.real_nodes() if any(c == "self._remove_queue" for c in n.call_names())]
     snd = [n for n in cfg.real_nodes() if any(c == "self.send_message" for c in n.call_names())]
     ctx.require(len(snd) == 1, f"{q}: expected exactly one send_message call")
-    facts.update(idvar=idvar, reg=reg, rem=rem, snd=snd[0], cfg=cfg)
+    facts.update(idvar=idvar, reg=reg, rem=rem, snd=snd[0], cfg=cfg, fn=fn)
     return facts
 
 
@@ -137,8 +137,8 @@ def check_requests(ctx):
         f = repo.method(cname, mname, inherited=False)
         ctx.touch(f)
         q = f.qualname
-        fn = f.node
         fx = _request_facts(ctx, f)
+        fn = fx["fn"]
         cfg, idvar, reg, rem, snd = fx["cfg"], fx["idvar"], fx["reg"], fx["rem"], fx["snd"]
         ok = len(reg) == 1
         ctx.ob("C06.P1", q, ok, "the requester registers its response queue once" if ok else f"{len(reg)} registrations of a response queue", key="registers", where=f.where)
